@@ -13,6 +13,13 @@ THEOREMS = [
     "GoaktVerif.Model.C09.wf_removeDescendant",
     "GoaktVerif.Model.C09.wf_removeNode",
     "GoaktVerif.Model.C09.wf_deleteNode",
+    "GoaktVerif.Model.C09.nwf_insertNamed",
+    "GoaktVerif.Model.C09.nwf_addRoot",
+    "GoaktVerif.Model.C09.nwf_addNode",
+    "GoaktVerif.Model.C09.dropName_spec",
+    "GoaktVerif.Model.C09.nwf_removeNode",
+    "GoaktVerif.Model.C09.nwf_step",
+    "GoaktVerif.C09.name_resolves",
     "GoaktVerif.C09.tree_inv_step",
     "GoaktVerif.C09.tree_holds",
     "GoaktVerif.C09.counter_eq",
@@ -39,12 +46,15 @@ SITES = {
 }
 MANIFEST = {
     "level_text": ("Kernel-checked: the consistency invariant WF of the actor tree (pids is a map keyed by PID.ID(); "
-                   "counter = |pids|; every names entry points to a live registered node of that name; watchers and "
-                   "watchees are mutually inverse and mention registered nodes only) holds in EVERY tree reachable from "
+                   "counter = |pids|; watchers and watchees are mutually inverse and mention registered nodes only) and the "
+                   "invariant NWF of the name index (names + shadowed, pid_tree.go after fix 38faff1: every names entry and "
+                   "shadowed pointer is a live registered node of that name, the entry never waits in shadowed, and every "
+                   "registered node is the entry of its name or waits in shadowed - so a registered actor's name always "
+                   "resolves to a registered actor of that name, name_resolves) hold in EVERY tree reachable from "
                    "newTree() by any sequence of addRootNode/addNode/attachNode/addOrAttachNode/addWatcher/removeWatcher/"
                    "removeDescendant/deleteNode/reset (tree_holds: induction over the op list, one preservation lemma per "
                    "writer of pid_tree.go). The model mirrors pid_tree.go including node-pointer identity (stale "
-                   "descendants entries, cleared parent objects, last-writer-wins names index) and is tied to the code by a "
+                   "descendants entries, cleared parent objects, names entry taken over by the last writer and handed back to the most recent survivor) and is tied to the code by a "
                    "differential run of the REAL tree (stub PIDs, in-package) after every op of random scripts and of all "
                    "rooted trees with <= 5 nodes. The stop path (Shutdown/doStop/freeChildren/freeWatchers + death watch) is "
                    "an executable model over the same tree; stop_holds (via shutdown_post: induction on the recursion "
@@ -392,8 +402,11 @@ FIXED = [
     "tree 4 R:10.1 A:10.1:20.2 A:10.1:30.3 A:20.2:40.4 T:30.3:40.4 D:20.2",
     # removeDescendant then delete of the parent leaves the child with a cleared parent object
     "tree 4 R:10.1 A:10.1:20.2 A:20.2:30.3 X:2:3 D:20.2 T:10.1:30.3 D:30.3",
-    # same name under two parents: the names index keeps the last writer only
+    # same name under two parents: the last writer takes the names entry, the earlier holders wait in `shadowed`
+    # and get the entry back when the taker is deleted (fix 38faff1)
     "tree 2 R:10.1 A:10.1:20.2 A:10.1:40.4 A:20.2:60.6 D:60.6 D:40.4",
+    "tree 1 R:10.1 A:10.1:20.2 A:10.1:30.3 A:20.2:40.4 D:30.3 D:40.4 D:20.2",
+    "tree 1 R:10.1 A:10.1:20.2 A:20.2:30.3 A:30.3:40.4 D:20.2 A:10.1:21.2",
     # re-add of an id whose old node object is still referenced from a former parent
     "tree 4 R:10.1 A:10.1:20.2 A:10.1:30.3 A:20.2:40.4 T:30.3:40.4 D:30.3 A:10.1:41.4 D:20.2",
     # self watch, then delete
@@ -579,8 +592,12 @@ def compare(case, impl, model):
 
 
 def _parse_seg(seg):
-    res, counter, names, nodes = seg.split("|")
-    d = {"res": res, "counter": int(counter), "names": [], "nodes": {}}
+    res, counter, names, nodes, shadow = seg.split("|")
+    d = {"res": res, "counter": int(counter), "names": [], "nodes": {}, "shadow": {}}
+    if shadow != "-":
+        for e in shadow.split(","):
+            a, b = e.split(">")
+            d["shadow"][int(a)] = [(int(q.rstrip("!")), not q.endswith("!")) for q in b.split(".")]
     if names != "-":
         for e in names.split(","):
             a, b = e.split(">")
@@ -600,6 +617,14 @@ def _wf(d):
     for nm, i, live in d["names"]:
         if not live or i not in d["nodes"] or d["nodes"][i]["name"] != nm:
             return "names index points to a cleared or differently named node"
+    entry = {nm: i for nm, i, _ in d["names"]}
+    for nm, l in d["shadow"].items():
+        for q, live in l:
+            if not live or q not in d["nodes"] or d["nodes"][q]["name"] != nm or entry.get(nm) == q:
+                return "shadowed holds a cleared, wrongly named or current-entry node"
+    for i, n in d["nodes"].items():
+        if entry.get(n["name"]) != i and all(q != i for q, _ in d["shadow"].get(n["name"], [])):
+            return "a registered node is not reachable through its name (neither the names entry nor shadowed)"
     for i, n in d["nodes"].items():
         for w, _ in n["W"]:
             if w not in d["nodes"] or all(k != i for k, _ in d["nodes"][w]["E"]):
